@@ -19,7 +19,7 @@ PROPS["C01"] = dict(
           "rho in {0.5..0.9999999, 1, 1.0000001..1.1, k/16<=4}, plus whole-box shifts; must throw iff nearest-image distance > h_min/2 "
           "(ambiguity band 1e-6 + rounding), open boxes never; non-trivial = closed box, outside the band, 0.5 < ratio < 2. "
           "csg_map (exe): generated top.xml / map.xml / .gro (x,v; orthorhombic or triclinic) or .dump (x,v,f; orthorhombic) trajectories of 1-3 "
-          "frames -> csg_map --cg --out .gro/.dump [--vel --force] vs numpy recomputation from the same text files within the printed precision; "
+          "frames -> csg_map --cg --out .gro/.dump/.xyz/.pdb [--vel --force] vs numpy recomputation from the same text files within the printed precision; "
           "non-trivial = as for map. --vel / --force are also passed (rarely) when the trajectory carries no velocities / forces: the tool must neither crash nor write such columns."
           " frames: sequences of 2-4 frames mapped through ONE TopologyMap (box kind / volume / tilt-only changes between frames, new positions): "
           "every frame must map exactly as it does in a freshly built system and the mapped topology must carry the box of that frame; "
